@@ -108,7 +108,7 @@ def run_ext(ctx):
         "rpc: which error is returned is never judged; `from` = the empty key may be read either way (the wire format cannot tell "
         "it from 'no from'); proof presence for lists shorter than two items, `next` of a final page and the fee formula are informational")
     # 4. binding self-test
-    selftest(ctx, worlds, set(id(e) for _, e in fails))
+    selftest(ctx, worlds, set(id(e) for _, e in fails), strict=clean)
 
 
 def violation(ctx, sig, detail):
@@ -175,8 +175,9 @@ def judge_worlds(ctx, worlds, tag, limit=60 << 20):
     return out
 
 
-def selftest(ctx, worlds, failed):
-    """Corrupt one field of good recorded answers (one per predicate family) and require rejection at exactly that line."""
+def selftest(ctx, worlds, failed, strict=True):
+    """Corrupt one field of good recorded answers (one per predicate family) and require rejection at exactly that line.
+    When the run has violations of its own (strict = False) a family with no good answer left is skipped."""
     hist = next((w for w in sorted(worlds) if any(e["event"] == "historic" for e in worlds[w])), None)
     fee = next((w for w in sorted(worlds) if any(e["event"] == "fee" for e in worlds[w])), None)
     if hist is None or fee is None:
@@ -193,7 +194,8 @@ def selftest(ctx, worlds, failed):
                 evs[i] = change(dict(e))
                 expect[i] = (name, pred)
                 return
-        raise vlib.Inconclusive("rpc self-test: nothing to corrupt for %s" % name)
+        if strict:
+            raise vlib.Inconclusive("rpc self-test: nothing to corrupt for %s" % name)
 
     corrupt("getstate-value", "GetStateSound", lambda e: e["event"] == "getstate" and e["ok"], lambda e: dict(e, v=e["v"] + "00"))
     corrupt("getstate-refusal", "GetStateComplete", lambda e: e["event"] == "getstate" and e["ok"] and e["ret"], lambda e: dict(e, ok=False, v=""))
